@@ -297,7 +297,7 @@ func TestReplay(t *testing.T) {
 }
 
 func TestPlannedVsLiteral(t *testing.T) {
-	pbt.Check(t, 4000, 300000, func(rt *rapid.T) {
+	pbt.Check(t, 4000, 150000, func(rt *rapid.T) {
 		g := gen.Graph(rt, 6, 10)
 		steps := gen.Traversal(rt, gen.TravOpts{MaxLen: 8, FilterBias: true, NoOrder: rapid.IntRange(0, 9).Draw(rt, "noOrder") < 8})
 		for _, be := range []string{"mem", "badger"} {
